@@ -136,36 +136,37 @@ type LoopSpec struct {
 }
 
 type Contract struct {
-	Pkg      string // package import path
-	Key      string // function key as in ssa RelString
-	Requires []*Clause
-	Ensures  []*Clause
-	Assigns  []string
-	HasAssigns bool
-	Loops    map[int]*LoopSpec
-	Inline   bool
-	Trusted  bool
-	NoReturn bool
-	Pure     bool
-	Unreachable bool // never called: a static call is an obligation `false`; the body is not verified
-	Constructor bool // establishes the receiver's type invariant: not assumed at entry, not required at call sites
-	Skip     bool   // never verify body (outside subset); requires Trusted semantics at call sites
-	Ghost    []string
-	Asserts  map[string][]*Clause // keyed by anchor (unused for now)
-	Effects  []*Clause // ghost effects: "x = expr" applied at call sites and checked at return
-	File     string
-	Line     int
-	IsIface  bool
-	Lets     []*Clause // let name = expr (evaluated at entry)
-	ChanInvs []*ChanInvDecl
-	CallsOnly []string // frame on callees: the function may only call functions whose name contains one of these
-	CallersOnly []string // frame on callers: the function may only be called from these functions
-	GhostInits []*Clause  // ghost-init g_x == expr : the activation starts its own ghost variables
-	OnSends  []*OnSend  // on-send / at-send clauses
-	AtCalls  []*AtCall // assertions checked at call sites inside the function
-	Binds    []*BindClause // names for the results of calls inside the function
-	Semaphores []string // channel expressions (params / receiver fields) used as counting semaphores
-	Notes    []string
+	Pkg           string // package import path
+	Key           string // function key as in ssa RelString
+	Requires      []*Clause
+	Ensures       []*Clause
+	Assigns       []string
+	HasAssigns    bool
+	Loops         map[int]*LoopSpec
+	Inline        bool
+	Trusted       bool
+	NoReturn      bool
+	Pure          bool
+	Unreachable   bool // never called: a static call is an obligation `false`; the body is not verified
+	Constructor   bool // establishes the receiver's type invariant: not assumed at entry, not required at call sites
+	Skip          bool // never verify body (outside subset); requires Trusted semantics at call sites
+	Ghost         []string
+	Asserts       map[string][]*Clause // keyed by anchor (unused for now)
+	Effects       []*Clause            // ghost effects: "x = expr" applied at call sites and checked at return
+	File          string
+	Line          int
+	IsIface       bool
+	Lets          []*Clause // let name = expr (evaluated at entry)
+	ChanInvs      []*ChanInvDecl
+	NoBlockingOps bool          // no channel send / receive / blocking select in the function, its closures and its same-package callees
+	CallsOnly     []string      // frame on callees: the function may only call functions whose name contains one of these
+	CallersOnly   []string      // frame on callers: the function may only be called from these functions
+	GhostInits    []*Clause     // ghost-init g_x == expr : the activation starts its own ghost variables
+	OnSends       []*OnSend     // on-send / at-send clauses
+	AtCalls       []*AtCall     // assertions checked at call sites inside the function
+	Binds         []*BindClause // names for the results of calls inside the function
+	Semaphores    []string      // channel expressions (params / receiver fields) used as counting semaphores
+	Notes         []string
 }
 
 // SpecDefine is a non-recursive spec function written in the contract file.
@@ -176,15 +177,16 @@ type SpecDefine struct {
 }
 
 type PkgSpec struct {
-	Pkg        string
-	Dir        string
-	Contracts  map[string]*Contract
-	GlobalInvs []*Clause
-	Defines    map[string]*SpecDefine // package-level spec functions: define name(a, b) == expr
-	TypeInvs   map[string][]*Clause // type name -> invariants over `self`
-	TypeChanInvs map[string][]*ChanInvDecl // type name -> channel invariants of fields (ChanSrc = field name)
-	TypeSemaphores map[string][]string     // type name -> fields holding counting-semaphore channels
-	File       string
+	Pkg            string
+	Dir            string
+	Contracts      map[string]*Contract
+	GlobalInvs     []*Clause
+	FsWriters      []string // fs-writers-only: the only functions of the package that may create, replace, rename or remove files
+	Defines        map[string]*SpecDefine    // package-level spec functions: define name(a, b) == expr
+	TypeInvs       map[string][]*Clause      // type name -> invariants over `self`
+	TypeChanInvs   map[string][]*ChanInvDecl // type name -> channel invariants of fields (ChanSrc = field name)
+	TypeSemaphores map[string][]string       // type name -> fields holding counting-semaphore channels
+	File           string
 }
 
 var reFuncHdr = regexp.MustCompile(`^(func|iface)\s+(.+)$`)
@@ -305,6 +307,13 @@ func loadPkgSpec(path, pkgPath string) (*PkgSpec, error) {
 			cur = nil
 			continue
 		}
+		if word == "fs-writers-only" {
+			if rest != "nothing" {
+				ps.FsWriters = append(ps.FsWriters, splitTopLevelCommas(rest)...)
+			}
+			cur = nil
+			continue
+		}
 		if word == "global-invariant" {
 			c, err := parseClause(rest, path, ln.n)
 			if err != nil {
@@ -405,6 +414,8 @@ func loadPkgSpec(path, pkgPath string) (*PkgSpec, error) {
 			default:
 				return nil, fmt.Errorf("%s:%d: unknown loop clause %s", path, ln.n, parts[1])
 			}
+		case "no-blocking-ops":
+			cur.NoBlockingOps = true
 		case "calls-only":
 			cur.CallsOnly = append(cur.CallsOnly, splitTopLevelCommas(rest)...)
 		case "callers-only":
